@@ -14,7 +14,8 @@ import sqlite3
 from sim import devices
 from sim.canon import Log, dec_table, canon_rows
 from sim.core import outcome
-from sim.devices import SimTable, SimSourceError, SOURCE_ERROR_KINDS
+from sim.devices import (SimTable, SimSourceError, SimSourceAbort,
+                         SOURCE_ERROR_KINDS, INJECTED_SOURCE_FAILURES)
 from sim.loader import load_petl
 
 PROP = 'C17'
@@ -218,14 +219,14 @@ def _one(e, case, path, op, handle, commit, fault, log):
         src = SimTable(rows, mode='copy')
         if fault is not None and fault[0] == 'raise':
             src.arm(fault[1], kind=fault[2] if len(fault) > 2 else 'plain')
-            expect_exc = SimSourceError
+            expect_exc = INJECTED_SOURCE_FAILURES
         source = e.convert(e.wrap(src), 0, lambda v: v) \
             if case['pipeline'] else src
         dbo = _mk_dbo(handle, path, caller)
         raised = None
         try:
             _load(e, op, source, dbo, commit)
-        except Exception as ex:
+        except (Exception, SimSourceAbort) as ex:
             raised = type(ex)
             msg = str(ex)
         del dbo
@@ -241,7 +242,8 @@ def _one(e, case, path, op, handle, commit, fault, log):
             if not issubclass(raised, expect_exc):
                 raise _Bad('wrong-exception', '%s: raised %s (%s), expected '
                            '%s' % (what, raised.__name__, msg,
-                                   expect_exc.__name__))
+                                   getattr(expect_exc, '__name__',
+                                           'the injected failure')))
         new = _as_rows(cols, table) if op == 'todb' \
             else model + _as_rows(cols, table)
         if raised is not None:
